@@ -467,7 +467,7 @@ func runC05(args []string) int {
 	rngM := NewRNG(o.Seed + 4242)
 	nmotif := 24
 	if o.Thorough() {
-		nmotif = 80
+		nmotif = 40
 	}
 	for i := 0; i < nmotif; i++ {
 		p := GenMotifProg(rngM, q)
